@@ -511,6 +511,18 @@ func (g *Gen) applyContract(fr *Frame, st *State, site ssa.Instruction, fc *Func
 			Guard: r, Goal: v, Src: rq.Src, Pos: g.posOf(site)})
 		g.vc.assume(r, v)
 	}
+	for _, rq := range fc.PanicUnless {
+		v, err := g.evalBool(rq.Expr, env)
+		if err != nil {
+			g.contractError(rq, fmt.Errorf("at %s: %v", siteName, err))
+			continue
+		}
+		if fr.noPanic {
+			g.addObligation(&Obligation{Name: siteName + ".nopanic." + rq.Name, Func: fr.topKey(), Kind: "nopanic", Props: rq.Props,
+				Guard: r, Goal: v, Src: rq.Src, Pos: g.posOf(site)})
+		}
+		g.vc.assume(r, v)
+	}
 	pre := st.Clone()
 	// fresh / invoke steps (assumed higher-order functions)
 	for _, stp := range fc.Steps {
